@@ -16,7 +16,7 @@ import os
 import re
 import xml.etree.ElementTree as ET
 
-from lib.hx import harness, pick, pickb, done, tier, PART, note, known
+from lib.hx import harness, pick, pickb, done, tier, PART, note, known, sample
 
 PROPERTY = "C10"
 LEVEL = "exploration"
@@ -136,6 +136,7 @@ def check_markup(fmt, place, hi):
     base = _BENIGN_CACHE[key]
     pages = render_parse(fmt, place, s)
     ctx = dict(docformat=fmt, place=place, string=s)
+    sample(docformat=fmt, place=place, string=s, harmless_twin=benign, module=gen(fmt, place, s)["m"][0])
     if set(pages) != set(base):
         note(why="different set of pages", **ctx)
         return False
